@@ -85,9 +85,9 @@ def gen_rule(rng, block, opcode, subblocks):
         if c < 0.18:
             # literal register, sometimes in brackets (`jp (hl)`), the bracket sometimes glued to the mnemonic
             r = rng.choice(REGS)
-            br = rng.choice(["()", "[]"]) if rng.random() < 0.25 else None
+            br = rng.choice(["()", "[]"]) if rng.random() < 0.35 else None
             if br:
-                if k == 0 and pat[-1]["p"] == "ws" and rng.random() < 0.4:
+                if k == 0 and pat[-1]["p"] == "ws" and rng.random() < 0.6:
                     pat.pop()
                 pat.append({"p": "lit", "lc": br[0], "c0": br[0], "nch": 1})
             pat.append({"p": "lit", "lc": r, "c0": r[0], "nch": len(r)})
@@ -186,6 +186,21 @@ def gen_isa(rng):
     for i in range(nrules):
         r, ops = gen_rule(rng, rng.choice(blocks), rng.randrange(0, 256), subblocks)
         rules.append(r)
+        descr.append(ops)
+    if rng.random() < 0.35:
+        # `jp(hl)`: a short mnemonic, a bracket glued to it, a register name inside (all literal)
+        mn = rng.choice(["l", "ld", "j", "m", "in", "st", "jp"])
+        reg = rng.choice(REGS)
+        br = rng.choice(["()", "[]"])
+        pat = [{"p": "lit", "lc": mn, "c0": mn[0], "nch": len(mn)}, {"p": "lit", "lc": br[0], "c0": br[0], "nch": 1},
+               {"p": "lit", "lc": reg, "c0": reg[0], "nch": len(reg)}, {"p": "lit", "lc": br[1], "c0": br[1], "nch": 1}]
+        ops = [("reg", reg)]
+        prod = [numlit("0x%02x" % rng.randrange(0, 256))]
+        if rng.random() < 0.5:
+            pat += [{"p": "lit", "lc": ",", "c0": ",", "nch": 1}, {"p": "ws"}, {"p": "par", "name": "a", "ty": "u", "n": 8, "sub": ""}]
+            ops.append(("typed", "u", 8))
+            prod.append(var("a"))
+        rules.append({"block": rng.choice(blocks), "sub": False, "pat": pat, "prod": concat(prod)})
         descr.append(ops)
     allrules = rules + [r for sb in subblocks for r in sb["rules"]]
     return {"rules": allrules, "top": list(zip(rules, descr)), "subblocks": subblocks}
@@ -826,6 +841,23 @@ def gen_cascade_program(rng, isa=None):
                 else:
                     toks = [tok("id", "mvi", True), num_tok(rng, 7, True), tok("op", ",", False)] + name_tokens(lab, True)
                 items.insert(rng.randrange(at, len(items)), {"k": "instr", "toks": toks})
+    # nested constants of the same name under a label and under a top-level CONSTANT (which opens a scope too):
+    # the first a literal, the second following an address; an instruction after it reads the second
+    if rng.random() < 0.2:
+        back = [it["name"] for it in items if it["k"] == "label"]
+        if back:
+            at = max(i for i, it in enumerate(items) if it["k"] == "label") + 1
+            lab = rng.choice(back)
+            trap = [{"k": "label", "lvl": 0, "name": "here"},
+                    {"k": "const", "lvl": 1, "name": "k", "e": {"k": "num", "text": list("0x77")}},
+                    {"k": "const", "lvl": 0, "name": "second", "e": {"k": "num", "text": ["0"]}},
+                    {"k": "const", "lvl": 1, "name": "k", "e": rng.choice([var("here"), var(lab), _cmp("add", var(lab), numlit("1"))])},
+                    {"k": "instr", "toks": [tok("id", rng.choice(["ldi", "ldi", "mvi"]), True)] +
+                                           ([num_tok(rng, 7, True), tok("op", ",", False)] if False else []) +
+                                           [tok("op", ".", True), tok("id", "k", False)]}]
+            if trap[-1]["toks"][0]["s"] == "mvi":
+                trap[-1]["toks"] = [tok("id", "mvi", True), num_tok(rng, 7, True), tok("op", ",", False), tok("op", ".", True), tok("id", "k", False)]
+            items[at:at] = trap
     # user functions whose bodies read the address of the calling item or a label, called in operands
     fns = []
     if rng.random() < 0.3:
@@ -837,6 +869,14 @@ def gen_cascade_program(rng, isa=None):
             call = [tok("id", f["name"], True), tok("op", "(", False), num_tok(rng, rng.choice([0, 1, 2, 7]), False, "dec"), tok("op", ")", False)]
             head = rng.choice([[tok("id", "ldi", True)], [tok("id", "mvi", True), num_tok(rng, 7, True), tok("op", ",", False)]])
             items.insert(rng.randrange(at0, len(items) + 1), {"k": "instr", "toks": head + call})
+        if rng.random() < 0.6:
+            # a constant defined through a function call, declared after its use and before what it depends on
+            f = rng.choice(fns)
+            cexp = {"k": "call", "f": f["name"], "args": [{"k": "num", "text": list(str(rng.choice([0, 1, 2])))}]}
+            use = {"k": "instr", "toks": [tok("id", "ldi", True), tok("id", "cf", True)]}
+            pos_use = rng.randrange(0, len(items) + 1)
+            items.insert(pos_use, use)
+            items.insert(rng.randrange(pos_use + 1, len(items) + 1), {"k": "const", "lvl": 0, "name": "cf", "e": cexp})
     for lab in pending:
         items.append({"k": "label", "lvl": 0, "name": lab})
     items, banks = with_banks(rng, items, 0.2, [256, 512, 1024])
